@@ -1,0 +1,33 @@
+//go:build verif
+
+// Contracts for packet.go (properties C02 C04 C05 C08 C09 C14 C15).
+package corebgp
+
+//@ func prependHeader returns (r)
+//@   ensures [length]   len(r) == len(m) + 19
+//@   ensures [marker]   markerOK(r)
+//@   ensures [lenfield] be16(r, 16) == (len(m) + 19) % 65536
+//@   ensures [type]     r[18] == t
+//@   ensures [body]     forall i :: 0 <= i && i < len(m) ==> r[19+i] == m[i]
+//@   ensures [fresh]    fresh(r.arr)
+//@   modifies nothing
+//@   loop#0 invariant [marker] forall j :: 0 <= j && j < i ==> b[j] == 255
+
+//@ func Notification.encode returns (b, err)
+//@   ensures [no_error]      err == nil
+//@   ensures [length]        len(b) == 21 + len(n.Data)
+//@   ensures [header]        markerOK(b) && be16(b, 16) == (21 + len(n.Data)) % 65536 && b[18] == 3
+//@   ensures [code_subcode]  b[19] == n.Code && b[20] == n.Subcode
+//@   ensures [data_verbatim] forall i :: 0 <= i && i < len(n.Data) ==> b[21+i] == n.Data[i]
+//@   ensures [fresh]         fresh(b.arr)
+//@   modifies nothing
+
+//@ func Notification.decode returns (err)
+//@   ensures [short_iff_error] (err != nil) == (len(b) < 2)
+//@   ensures [code]    err == nil ==> n.Code == b[0] && n.Subcode == b[1]
+//@   ensures [datalen] err == nil && len(b) > 2 ==> len(n.Data) == len(b) - 2
+//@   ensures [data]    err == nil && len(b) > 2 ==> (forall i :: 0 <= i && i < len(b) - 2 ==> n.Data[i] == b[2+i])
+//@   ensures [data_fresh] err == nil && len(b) > 2 ==> fresh(n.Data.arr)
+//@   ensures [data_kept]  err != nil || len(b) == 2 ==> n.Data == old(n.Data)
+//@   ensures [error_no_partial] err != nil ==> n.Code == old(n.Code) && n.Subcode == old(n.Subcode)
+//@   modifies *n
